@@ -242,6 +242,13 @@ func (g *gen) loadStep(s *session) {
 	if g.rng.Chance(1, 25) {
 		body = g.rng.Pick([]string{"!", "-"})
 	}
+	if cur := currentCfg(); g.rng.Chance(1, 4) && !strings.Contains(fl, "w") {
+		// load what is already there (errSameConfig unless forced); the null config also as an empty body
+		body = bodyOf(cur)
+		if cur == nil && g.rng.Chance(1, 2) {
+			body = "-"
+		}
+	}
 	if m == "G" || m == "H" || m == "D" {
 		body, fl = "-", "-"
 	}
@@ -309,6 +316,12 @@ func (g *gen) history(maxSteps int) string {
 		}
 		if g.rng.Chance(1, 14) {
 			g.loadStep(s)
+			continue
+		}
+		if g.rng.Chance(1, 25) {
+			// write what is already there: unchanged (errSameConfig) unless the reload is forced
+			fl := g.rng.Pick([]string{"-", "-", "f"})
+			s.exec(stepLine(g.rng.Pick([]string{"A", "A", "P"}), path, bodyOf(node), "-", fl))
 			continue
 		}
 		switch k := g.rng.Intn(100); {
